@@ -1460,6 +1460,13 @@ class Circuit(Unitary, StateVectorMap, Collection[Operation]):
             self.insert(cycle_index, op)
             return
 
+        if cycle_index < -self.num_cycles:
+            cycle_index = 0
+        elif cycle_index < 0:
+            # Resolve a negative index once: the cycle count changes while
+            # the operations are inserted one by one.
+            cycle_index = self.num_cycles + cycle_index
+
         if cycle_index >= self.num_cycles:
             # Inserting past the last cycle is appending; doing it through
             # `insert` would append the operations one by one in reverse.
